@@ -1611,6 +1611,28 @@ func runAff8(m *Model, r *RuleResult) {
 		r.violation("lp:layer-from-final-max", dpos, "Node.Layer := L - height[n] after the traversal", "no top-level loop storing n.Layer after a traversal loop that max-updates L")
 		return
 	}
+	// the traversal starts from every node: a full loop over the graph's node list (or a same-length copy of it) that is
+	// never left early - a node that is skipped keeps the "not computed" sentinel as its height
+	okAll, whyAll := true, ""
+	if !trav.full {
+		okAll, whyAll = false, "the loop that starts the traversals does not visit all indices of "+trav.container
+	}
+	cont := strings.ReplaceAll(trav.container, " ", "")
+	if !(strings.HasSuffix(cont, ".Nodes") && !strings.Contains(cont, "(")) &&
+		!regexp.MustCompile(`^make\(\[\]\*[A-Za-z.]*Node,len\([A-Za-z0-9_]+\.Nodes\)\)$`).MatchString(cont) &&
+		!regexp.MustCompile(`^slices\.Clone\([A-Za-z0-9_]+\.Nodes\)$`).MatchString(cont) {
+		okAll, whyAll = false, "the traversals are started from "+trav.container+", which is not the graph's node list or a same-length copy of it"
+	}
+	for _, p := range trav.paths {
+		if p.stopped == "break" || p.stopped == "return" {
+			okAll, whyAll = false, "the loop that starts the traversals is left early under "+strings.Join(p.cond, " && ")
+		}
+	}
+	if okAll {
+		r.holds("lp:every-node-is-a-root", dpos, "a traversal is started from every node of the graph; the loop is never left early")
+	} else {
+		r.violation("lp:every-node-is-a-root", dpos, "a traversal must be started from every node of the graph", whyAll+": a node that is never reached keeps the sentinel height and lands outside the computed layers")
+	}
 	okL := assign.id > trav.id && assign.pos > trav.pos
 	whyL := "layers are assigned before the traversal is complete"
 	for _, p := range assign.paths {
